@@ -53,3 +53,9 @@ def fill(claim, NA):
         "Trusted: z3; AST->LIA translator incl. inlining (validated on concrete inputs every run); concrete dimension list; CrossHair for finite-choice obligations.",
         "AST->QF_LIA exact binary64 encoding (z3) + CrossHair symbolic execution",
     )
+    claim(
+        "C09",
+        "Bounded symbolic execution of write() of all eight writers over structure selectors (layouts at every level incl. absolute ones without a video size = refusal path, caption and document styles, identical timespans = merge path, balanced and unclosed italics, two languages): a deep structural snapshot of the caption set is identical before and after, and the same writer twice / a fresh writer / a writer that wrote another set before return identical documents.",
+        "Trusted: CrossHair+z3 (finite selector space, completeness certified); contract stub of bs4 for the DFXP family (counterexamples replayed on the real bs4); deterministic stand-in for hash() inside pycaption.geometry. Other-process hash seeds are argued (no set iteration in writers), not executed.",
+        "CrossHair symbolic execution + z3 over structure selectors",
+    )
